@@ -77,7 +77,7 @@ func (s PShape) rawRequest(values []string) J {
 	case "header":
 		hs := [][2]string{}
 		for _, v := range values {
-			hs = append(hs, [2]string{"X-V", v})
+			hs = append(hs, [2]string{headerParamName, v})
 		}
 		req["headers"] = hs
 	case "cookie":
